@@ -68,12 +68,15 @@ Table(b) ==
         Bs == { <<PairsB[i][1], PairsB[i][2], "right", e, OnlyRight>> : i \in 1..Len(PairsB), e \in EncClasses }
         C == { <<PairsC[i][1], PairsC[i][2], zc, e, OnlyRight>> : i \in 1..Len(PairsC), zc \in {"plus1", "minus1", "zero"}, e \in {"raw64", "der"} }
         D == { <<PairsC[i][1], PairsC[i][2], "right", e, KeyClasses>> : i \in 1..Len(PairsC), e \in {"raw64", "der"} }
-        all == (A \ {t \in A : \E u \in D : u[1] = t[1] /\ u[2] = t[2] /\ u[4] = t[4]}) \cup Bs \cup C \cup D
+        \* b.lite: only the digest and key classes (used for the many digest classes the harness brings, e.g. digests whose
+        \* bytes are ASCII text)
+        all == IF b.lite THEN C \cup D
+               ELSE (A \ {t \in A : \E u \in D : u[1] = t[1] /\ u[2] = t[2] /\ u[4] = t[4]}) \cup Bs \cup C \cup D
         app == {t \in all : Applicable(t[4], ScalarOf(t[1], b.r), ScalarOf(t[2], b.s))}
     IN SX!SetToSeq(app)
 
 \* ------------------------------------------------------------------ signing traces
-EvOf(e) == [mode |-> e.mode, key |-> e.key, z |-> e.z, ht |-> e.ht, r |-> e.r, s |-> e.s, der |-> e.der, raw |-> e.raw,
+EvOf(e) == [mode |-> e.mode, key |-> e.key, z |-> e.z, rep |-> e.rep, ht |-> e.ht, r |-> e.r, s |-> e.s, der |-> e.der, raw |-> e.raw,
             valid |-> e.valid]
 RECURSIVE RunTrace(_, _, _, _)
 RunTrace(st, evs, i, acc) ==
